@@ -237,3 +237,60 @@ func c08Accounts(p *load.Prog, r *oblig.Run) {
 		r.Add("R08.c", "iteration paths", p.Pos(tr.Pos()), "paths").Unknown("no feasible path through the loop body")
 	}
 }
+
+// c08DeepEqual (R08.d): NodeDiff.IsDeepEqual answers for the whole subtree: it walks all of its child entries and asks
+// each of them the same question (a recursive call on the element) on every path that goes on to the next child.
+func c08DeepEqual(p *load.Prog, r *oblig.Run) {
+	r.Rule("R08.d", "NodeDiff.IsDeepEqual asks every child entry recursively (a one-sided entry at any depth makes the answer false)", 2)
+	fn := p.Method(load.PkgRoot, "NodeDiff", "IsDeepEqual")
+	if fn == nil || len(fn.Params) != 1 {
+		r.Add("R08.d", "anchor", "-", "anchor").Unknown("NodeDiff.IsDeepEqual not found")
+		return
+	}
+	// the list of child entries: a load of the receiver's Children field
+	var kids ssa.Value
+	for _, b := range fn.Blocks {
+		for _, ins := range b.Instrs {
+			if ld, ok := ins.(*ssa.UnOp); ok && ld.Op == token.MUL {
+				if fa, ok := ld.X.(*ssa.FieldAddr); ok && fa.X == ssa.Value(fn.Params[0]) && su.FieldName(fa) == "Children" {
+					kids = ld
+				}
+			}
+		}
+	}
+	var loops []elementLoop
+	if kids != nil {
+		loops = findElementLoops(fn, kids)
+	}
+	if len(loops) != 1 {
+		r.Add("R08.d", "children loop", p.Pos(fn.Pos()), "IsDeepEqual walks all child entries").Fail(fmt.Sprintf("NodeDiff.IsDeepEqual has %d loops over all of its child entries", len(loops)))
+		return
+	}
+	loop := loops[0]
+	r.Add("R08.d", "children loop", p.Pos(kids.Pos()), "IsDeepEqual walks all child entries").OK("index runs over 0..len-1")
+	paths, capped := simplePaths(loop.body, map[*ssa.BasicBlock]bool{loop.header: true}, 500)
+	if capped {
+		r.Add("R08.d", "iteration paths", p.Pos(fn.Pos()), "paths").Unknown("more than 500 paths")
+		return
+	}
+	k := 0
+	for _, path := range paths {
+		if path[len(path)-1] != loop.header {
+			continue // leaves with an answer
+		}
+		k++
+		asked := false
+		for _, b := range path[:len(path)-1] {
+			for _, ins := range b.Instrs {
+				if c, ok := ins.(*ssa.Call); ok && c.Call.StaticCallee() == fn && loop.elementOf(c.Call.Args[0]) {
+					asked = true
+				}
+			}
+		}
+		r.Check("R08.d", fmt.Sprintf("iteration path %d", k), p.Pos(path[0].Instrs[0].Pos()), "iteration path "+pathDesc(p, path), asked,
+			"the child entry is asked recursively", "NodeDiff.IsDeepEqual goes on to the next child on the path "+pathDesc(p, path)+" without asking the child entry IsDeepEqual itself: a one-sided entry two or more levels down is not seen and the diff of two different trees is reported as all-two-sided")
+	}
+	if k == 0 {
+		r.Add("R08.d", "iteration paths", p.Pos(fn.Pos()), "paths").Unknown("no path continues to the next child")
+	}
+}
